@@ -59,6 +59,25 @@ def run_check(pid, tier, root=None, write=True):
             if d['result'] == 'ok': run.ok(k, rule='SELFTEST')
             elif d['result'] == 'skipped': run.ok(k, 'skipped: source fragment no longer present', rule='SELFTEST')
             else: run.unknown(k, 'self-test result %s' % d['result'], rule='SELFTEST')
+        from . import deep
+        run.rule_doc['SEEDED'] = ('every kept seeded change (written by independent sub-agents from the property text alone) that this check is '
+                                  'recorded to report is re-applied to a scratch copy of the current tree and is reported again')
+        for sid, result, detail in deep.seeded_replay(pid):
+            k = 'seeded :: %s' % sid
+            if result == 'ok': run.ok(k, detail, rule='SEEDED')
+            elif result == 'skipped': run.ok(k, 'skipped: ' + detail, rule='SEEDED')
+            else: run.unknown(k, detail, rule='SEEDED')
+        run.rule_doc['PROBE'] = ('behaviour-preserving variants of the functions this check consults (one local variable renamed; if/else '
+                                 'swapped, comparison flipped, temporary introduced, pass inserted, ...) never produce a VIOLATION')
+        pr = deep.probes(pid)
+        if pr is None: run.unknown('probe :: variants', 'vocab.json is stale (run tools/gen_vocab.py)', rule='PROBE')
+        else:
+            run.probe = dict((k, v) for k, v in pr.items() if k != 'alarms')
+            if pr['alarms']:
+                for job, viol in pr['alarms'][:5]:
+                    run.unknown('probe :: %s %s %s' % (job[2], job[4], viol[:1]), 'a behaviour-preserving variant is reported as a violation (false alarm)', rule='PROBE')
+            else:
+                run.ok('probe :: %d renames + %d rewrites, no VIOLATION (%d undecided)' % (pr['renames'], pr['rewrites'], pr['undecided']), rule='PROBE')
     code = run.finalize(getattr(mod, 'LEVEL', 'other'), getattr(mod, 'EXPLANATION', ''), write=write)
     bad = [m for m in MODULES if m in sys.modules]
     if bad:
